@@ -514,6 +514,30 @@ def run(spec, mon):
             case2 = {"kind": "lazy-history", "provider": prov_name, "got": seq}
             mon.case(case2, k == 0)
             mon.check("provider.lazy_reevaluated", seq == want_seq, dict(case=case2, want=want_seq))
+        # a DERIVED category: its lazy callable asks the provider for another lazy category while it is being evaluated
+        # (os -> os_family -> tier): every level is evaluated, none is handed over as a function object
+        for carrier in ("atvp", "composite"):
+            cur = {"os": "linux"}
+            holder = {}
+            data = {"os": lambda: cur["os"],
+                    "os_family": lambda: "posix" if holder["p"].get("os") in ("linux", "mac") else "nt",
+                    "tier": lambda: "t1" if holder["p"].get("os_family") == "posix" else "t2"}
+            prov_d = holder["p"] = tm.ActiveTagValueProvider(data)
+            top = prov_d if carrier == "atvp" else tm.CompositeActiveTagValueProvider([{"x": "1"}, prov_d])
+            md = tm.ActiveTagMatcher(top if carrier == "atvp" else prov_d)
+            seq, want_seq = [], []
+            for osname in ("linux", "win", "mac"):
+                cur["os"] = osname
+                fam = "posix" if osname in ("linux", "mac") else "nt"
+                tier_ = "t1" if fam == "posix" else "t2"
+                for tags, want_ex in ((["use.with_os_family=posix"], fam != "posix"), (["not.with_os_family=posix"], fam == "posix"),
+                                      (["use.with_tier=t1"], tier_ != "t1"), (["use.with_os=%s" % osname, "use.with_tier=t2"], tier_ != "t2")):
+                    seq.append(md.should_exclude_with(tags))
+                    want_seq.append(want_ex)
+            case4 = {"kind": "derived-lazy-category", "carrier": carrier, "got": seq}
+            mon.case(case4, k == 0)
+            mon.seen("lazy_value_shape", "derived_from_another_lazy_category")
+            mon.check("provider.lazy_reevaluated", seq == want_seq, dict(case=case4, want=want_seq))
         cp2 = tm.CompositeActiveTagValueProvider([plain])
         m2 = tm.ActiveTagMatcher(cp2)
         plain["flag2"] = "a"
@@ -521,6 +545,24 @@ def run(spec, mon):
         plain["flag2"] = "zzz"
         q2 = m2.should_exclude_with(["use.with_flag2=a"])       # cached "a"
         mon.check("provider.composite_cache", [q1, q2] == [False, False], dict(case="cache", got=[q1, q2]))
+        # histories: look up, ASSIGN THROUGH THE COMPOSITE (item assignment / update() / setup_active_tag_values()), look up again --
+        # what was assigned is the current value from then on
+        for form in ("item_assignment", "update", "setup_active_tag_values"):
+            cp3 = tm.CompositeActiveTagValueProvider([{"os": "linux"}, {"n": "1"}])
+            m3 = tm.ActiveTagMatcher(cp3)
+            h1 = m3.should_exclude_with(["use.with_os=linux"])
+            if form == "item_assignment":
+                cp3["os"] = "mac"
+            elif form == "update":
+                cp3.update({"os": "mac"})
+            else:
+                tm.setup_active_tag_values(cp3, {"os": "mac", "unknown_category": "x"})
+            h2 = m3.should_exclude_with(["use.with_os=linux"])
+            h3 = m3.should_exclude_with(["use.with_os=mac", "use.with_n=1"])
+            case3 = {"kind": "composite-assignment-history", "assigned_with": form, "results": [h1, h2, h3]}
+            mon.case(case3, k == 0)
+            mon.seen("composite_assigned_with", form)
+            mon.check("provider.composite_value_assigned_after_a_lookup", [h1, h2, h3] == [False, True, False], dict(case=case3, want=[False, True, False]))
 
     # ---- behave.active_tag.python* providers -----------------------------------------------
     if shard == 0:
